@@ -25,7 +25,7 @@ func main() {
 	fam, tier := os.Args[1], os.Args[2]
 	rounds := 150
 	if tier == "thorough" {
-		rounds = 1000
+		rounds = 600
 	}
 	insts := harness.FreeMix(fam)
 	if len(insts) == 0 {
